@@ -28,7 +28,7 @@ print(json.dumps(out))
 """ % os.path.join(VERIF, "harness")
 
 
-def run(chk, scs, R, light=False, hashseeds=None):
+def run(chk, scs, R, light=False, hashseeds=None, env_extra=None, what="PYTHONHASHSEED"):
     import tempfile
     from scripted import run_sim_impl
     base = [list(run_sim_impl(sc)[0]) for sc in scs]
@@ -42,7 +42,7 @@ def run(chk, scs, R, light=False, hashseeds=None):
             orders = orders[:1]
         for hs in (hashseeds or (("1", "random") if light else ("0", "1", "4242", "random"))):
             for order in orders:
-                env = dict(os.environ, PYTHONHASHSEED=hs)
+                env = dict(os.environ, PYTHONHASHSEED=hs, **(env_extra or {}))
                 p = subprocess.run([sys.executable, "-c", CHILD, path, json.dumps(order)], capture_output=True, text=True,
                                    env=env, timeout=900)
                 if p.returncode != 0:
@@ -54,6 +54,8 @@ def run(chk, scs, R, light=False, hashseeds=None):
                     if tr != base[i]:
                         d = next((k for k in range(min(len(tr), len(base[i]))) if tr[k] != base[i][k]), min(len(tr), len(base[i])))
                         chk.violation("subprocess", {"hashseed": hs, "order": order, "scenario": scs[i]},
-                                      ["C06: scenario %d differs under PYTHONHASHSEED=%s / order %s at line %d" % (i, hs, order[:6], d)])
+                                      ["%s: scenario %d differs under %s=%s%s / order %s at line %d: %r vs %r"
+                                       % (chk.prop, i, what, hs, " " + str(env_extra) if env_extra else "", order[:6], d,
+                                          (tr[d:d + 1] or ["<end>"])[0], (base[i][d:d + 1] or ["<end>"])[0])])
     finally:
         os.unlink(path)
